@@ -28,6 +28,7 @@ from .runner import h
 from .wamp_harness import RouterPeer, WELCOME_ROLES
 
 KINDS = ["call", "publish", "subscribe", "unsubscribe", "register", "unregister"]
+POST_KINDS = KINDS + ["publish_plain", "publish_opts", "publish_noack", "call_opts", "subscribe_opts", "register_opts"]
 RANK = {"connect": 0, "join": 1, "leave": 2, "disconnect": 3}
 NAMES = {1: "HELLO", 2: "WELCOME", 3: "ABORT", 4: "CHALLENGE", 5: "AUTHENTICATE", 6: "GOODBYE", 8: "ERROR",
          16: "PUBLISH", 17: "PUBLISHED", 32: "SUBSCRIBE", 33: "SUBSCRIBED", 34: "UNSUBSCRIBE", 35: "UNSUBSCRIBED",
@@ -294,6 +295,9 @@ class Life:
         self.checked = 0              # deciding observations made in this case
         self.nfut = 0
         self.leave_checked_after = False
+        self.client_initiated = False  # the last completed GOODBYE exchange was started by this side
+        self.sess_no = 1              # sessions on this transport (re-join after a completed GOODBYE / ABORT)
+        self.sess_start = 0           # index into H where the current session began
 
     # ------------------------------------------------------------------ helpers
     def render(self, limit=120):
@@ -317,7 +321,9 @@ class Life:
         return bool(self.local_disconnect or ep.close_requested is not None or self.rp.ws_close_frames or ep.lost)
 
     def count_cb(self, stream, name):
-        return sum(1 for e in self.H if e[0] == stream and e[1] == name)
+        """connect / disconnect: per transport connection; join / leave: of the CURRENT session."""
+        lo = self.sess_start if name in ("join", "leave") else 0
+        return sum(1 for e in self.H[lo:] if e[0] == stream and e[1] == name)
 
     def _make_session(self):
         s = session_class()(self)
@@ -345,8 +351,9 @@ class Life:
                 self.checked += 1
                 if ev in self.seen[tag]:
                     self.v("twice/%s/%s/on-%s" % (tag, ev, self.trigger),
-                           "%s '%s' happened a second time on the same transport connection" % (
-                               "callback" if tag == "cb" else "observer", ev))
+                           "%s '%s' happened a second time %s" % (
+                               "callback" if tag == "cb" else "observer", ev,
+                               "in the same session" if ev in ("join", "leave") and self.sess_no > 1 else "on the same transport connection"))
                 elif RANK[ev] < self.last_rank[tag]:
                     self.v("order/%s/%s-after-%s" % (tag, ev, self.last_ev[tag]),
                            "%s '%s' after '%s' (required order: connect, join, leave, disconnect)" % (
@@ -380,9 +387,10 @@ class Life:
                 R.seen("escaped_kinds", "%s/%s" % (getattr(x, "where", name).split(":")[0], type(exc).__name__))
 
     # ------------------------------------------------------------------ router side
-    def may_send(self, name):
+    def may_send(self, name, ended_ok=False):
         ep = self.rp.ep
-        ok = (not ep.lost) and self.hello_seen and self.phase not in ("left", "aborted", "violated", "gone")
+        dead = ("violated", "gone") if ended_ok else ("left", "aborted", "violated", "gone")
+        ok = (not ep.lost) and self.hello_seen and self.phase not in dead
         if not ok:
             self.R.count("router_step_skipped")
         return ok
@@ -516,6 +524,7 @@ class Life:
                 self.v("leave-missing/goodbye/%s" % ("client-initiated" if initiated else "router-initiated"),
                        "GOODBYE exchange completed for a joined session, onLeave not fired")
             self.check_pending_after_leave("goodbye")
+        self.client_initiated = initiated
         self.phase = "left"
         self.end_reason = "goodbye"
 
@@ -570,9 +579,12 @@ class Life:
         return table[base]
 
     def do_illegal(self, name):
-        if self.phase not in ("connected", "challenged", "joined", "closing") or not self.may_send(name):
+        if self.phase not in ("connected", "challenged", "joined", "closing", "left", "aborted") or not self.may_send(name, ended_ok=True):
             return
-        pre = self.phase in ("connected", "challenged")
+        # after a completed GOODBYE exchange / after ABORT no session is established (any more): the statement's
+        # pre-session rule applies again - the one illegal message of the quantifier may come at THIS position too
+        ended = self.phase in ("left", "aborted")
+        pre = self.phase in ("connected", "challenged") or ended
         base = name.split("@")[0]
         if (pre and base not in [x.split("@")[0] for x in ILLEGAL_PRE]) or (not pre and base not in ILLEGAL_POST):
             self.R.count("router_step_skipped")
@@ -588,10 +600,15 @@ class Life:
         ep = self.rp.ep
         rejected = ep.close_requested is not None or bool(self.rp.ws_close_frames) or ep.lost
         processed = [e for e in new if e[0] in ("cb", "obs", "tx") or (e[0] == "fut" and e[3] == "ok")]
-        self.R.count("illegal_pre_checked" if pre else "illegal_post_checked")
+        if not ended:
+            self.R.count("illegal_pre_checked" if pre else "illegal_post_checked")
         self.R.seen("illegal_kinds", "%s/%s" % (phase0, name))
         self.checked += 1
-        where = "pre" if pre else "post"
+        where = ("after-goodbye" if phase0 == "left" else "after-abort") if ended else ("pre" if pre else "post")
+        if ended:
+            self.R.count("illegal_after_end_checked")
+            if phase0 == "left":
+                self.R.count("illegal_after_goodbye_%s_initiated" % ("client" if self.client_initiated else "router"))
         if processed:
             what = processed[0]
             self.v("illegal-accepted/%s/%s/processed-%s-%s" % (where, name, what[0], what[1]),
@@ -614,6 +631,48 @@ class Life:
         self.R.count("local_leave")
         if self.phase == "joined" and any(e[0] == "tx" and e[1] == "GOODBYE" for e in self.H[n:]):
             self.phase = "closing"
+
+    def do_rejoin(self):
+        """A second session on the SAME transport: after a completed GOODBYE exchange / a router ABORT with an
+        onLeave that kept the transport, the application calls join() again (HELLO -> ...).  join/leave are per
+        session, connect/disconnect per transport connection; everything else applies to the new session afresh."""
+        if self.phase not in ("left", "aborted") or self.rp.ep.lost or self.tclosing() or self.ambiguous:
+            self.R.count("rejoin_skipped")
+            return
+        if self.client_abort and not self.router_abort and self.phase == "aborted":
+            self.R.count("rejoin_skipped")      # the client aborted the handshake itself: the router may still answer the HELLO it saw
+            return
+        self.H.append(("do", "rejoin"))
+        n = len(self.H)
+        self.hello_seen = False
+        try:
+            self.session.join("realm1")
+        except Exception as e:
+            self.H.append(("api-raise", "join", type(e).__name__))
+        self.sync()
+        if not any(e[0] == "tx" and e[1] == "HELLO" for e in self.H[n:]):
+            self.R.count("rejoin_without_hello")
+            self.hello_seen = False
+            return
+        self.R.count("rejoined")
+        self.R.seen("rejoin_after", "%s/%s" % (self.end_reason, "client" if self.client_initiated else "router"))
+        # ---- a new session begins
+        self.sess_no += 1
+        self.sess_start = n
+        self.sid = self.sid + 1 if self.sid < 2 ** 53 else self.sid - 1      # stay inside the WAMP id range
+        self.phase = "connected"
+        self.joined_model = False
+        self.router_abort = False
+        self.client_abort = False
+        self.client_initiated = False
+        self.end_reason = None
+        self.n_challenges = 0
+        self.goodbyes = 0
+        self.leave_checked_after = False
+        for tag in ("cb", "obs"):
+            self.seen[tag] -= {"join", "leave"}
+            self.last_rank[tag] = min(self.last_rank[tag], RANK["connect"])
+            self.last_ev[tag] = "connect"
 
     def do_disconnect(self):
         self.H.append(("do", "disconnect"))
@@ -698,6 +757,21 @@ class Life:
                     f = s.call("com.c06.slow", 1)
                 elif k == "publish":
                     f = s.publish("com.c06.t2", 1, options=PublishOptions(acknowledge=True))
+                elif k == "publish_plain":        # option variants (driven after the end: every one must fail)
+                    f = s.publish("com.c06.t2", 1, k=2)
+                elif k == "publish_opts":
+                    f = s.publish("com.c06.t2", 1, options=PublishOptions())
+                elif k == "publish_noack":
+                    f = s.publish("com.c06.t2", options=PublishOptions(acknowledge=False, exclude_me=False))
+                elif k == "call_opts":
+                    from autobahn.wamp.types import CallOptions
+                    f = s.call("com.c06.slow", 1, options=CallOptions(timeout=5))
+                elif k == "subscribe_opts":
+                    from autobahn.wamp.types import SubscribeOptions
+                    f = s.subscribe(lambda *a, **kw: None, "com.c06", options=SubscribeOptions(match="prefix"))
+                elif k == "register_opts":
+                    from autobahn.wamp.types import RegisterOptions
+                    f = s.register(lambda *a, **kw: None, "com.c06.p4", options=RegisterOptions(invoke="roundrobin"))
                 elif k == "subscribe":
                     f = s.subscribe(lambda *a, **kw: None, "com.c06.t3")
                 elif k == "register":
@@ -861,7 +935,7 @@ class Life:
 
     def api_after_end(self):
         R = self.R
-        want = self.case.get("post_api") or KINDS
+        want = self.case.get("post_api") or POST_KINDS
         n = len(self.H)
         res = self.issue(want, note="post-end")
         self.sync()
